@@ -43,7 +43,7 @@ static _Bool nv_state_update_along(struct nv_state* s, const struct nv_state* s0
 
 #define NV_VERS(k) (state0->ver <= nv_ver_counter && state->ver <= nv_ver_counter && nv_ver_counter < UINT64_MAX - (k) + i \
   && state->eval_ver == state->ver && nv_ver_counter >= __CPROVER_loop_entry(nv_ver_counter) \
-  && nv_ver_counter - __CPROVER_loop_entry(nv_ver_counter) <= (uint64_t)i)
+  && nv_ver_counter - __CPROVER_loop_entry(nv_ver_counter) <= (uint64_t)i && state->m_status == __CPROVER_loop_entry(state->m_status))
 #define NV_STATE_FRESH(p) __CPROVER_is_fresh(p, sizeof(struct nv_state))
 /* "state is the evaluation at x0 + t*d of state0" */
 #define NV_AT(s, s0, step) ((s)->origin == (s0)->ver && NV_SAME((s)->t, (step)) && (s)->eval_ver == (s)->ver && (s)->ver != (s0)->ver)
@@ -55,7 +55,7 @@ __CPROVER_requires(NV_STATE_FRESH(state) && NV_STATE_FRESH(state0) && __CPROVER_
 __CPROVER_requires(state0->ver <= nv_ver_counter && nv_ver_counter < UINT64_MAX - 1) \
 __CPROVER_assigns(*state, nv_ver_counter) \
 __CPROVER_ensures(NV_AT(state, state0, step_size) && __CPROVER_return_value == state->valid) \
-__CPROVER_ensures(nv_ver_counter == __CPROVER_old(nv_ver_counter) + 1 && state->ver == nv_ver_counter)
+__CPROVER_ensures(nv_ver_counter == __CPROVER_old(nv_ver_counter) + 1 && state->ver == nv_ver_counter && state->m_status == __CPROVER_old(state->m_status))
 
 /* common precondition of every do_get (established by lsearchk_t::get): the state is the valid evaluation at step_size */
 #define NV_DOGET_REQUIRES \
@@ -67,7 +67,7 @@ __CPROVER_requires(NV_AT(state, state0, step_size) && state->valid)
 #define NV_T __CPROVER_return_value._1
 /* every line search: success => the state is the valid evaluation at x0 + t*d for the returned t */
 #define NV_DOGET_ENSURES_STATE __CPROVER_ensures(NV_OK ==> (NV_AT(state, state0, NV_T) && state->valid)) \
-__CPROVER_ensures(nv_ver_counter >= __CPROVER_old(nv_ver_counter) && state->ver <= nv_ver_counter && state->eval_ver == state->ver) \
+__CPROVER_ensures(nv_ver_counter >= __CPROVER_old(nv_ver_counter) && state->ver <= nv_ver_counter && state->eval_ver == state->ver && state->m_status == __CPROVER_old(state->m_status)) \
 /* evaluation budget of one line search: at most max_iterations trial evaluations per loop */ \
 __CPROVER_ensures(nv_ver_counter - __CPROVER_old(nv_ver_counter) <= 2 * (uint64_t)nv_max_iterations)
 
@@ -125,16 +125,17 @@ __CPROVER_ensures(!(__CPROVER_old(state->dg) < 0.0) ==> (!NV_OK && NV_STATE_UNCH
 __CPROVER_ensures(NV_OK ==> (state->origin == __CPROVER_old(state->ver) && NV_SAME(state->t, NV_T) && state->eval_ver == state->ver && state->ver != __CPROVER_old(state->ver) && state->valid)) \
 /* bookkeeping used by the solvers: the state always stays one consistent evaluation; the ghost counter counts evaluations */ \
 __CPROVER_ensures(state->eval_ver == state->ver && state->ver <= nv_ver_counter && nv_ver_counter >= __CPROVER_old(nv_ver_counter) && nv_ver_counter - __CPROVER_old(nv_ver_counter) <= 4 * (uint64_t)nv_max_iterations) \
-__CPROVER_ensures(NV_OK ==> nv_ver_counter > __CPROVER_old(nv_ver_counter))
+__CPROVER_ensures(NV_OK ==> nv_ver_counter > __CPROVER_old(nv_ver_counter)) \
+__CPROVER_ensures(state->m_status == __CPROVER_old(state->m_status))
 #define NV_LOOP_lsearchk_get_1 \
 __CPROVER_assigns(i, step_size, *state, nv_ver_counter) \
 __CPROVER_loop_invariant(0 <= i && i <= max_iterations && state0.ver <= nv_ver_counter && state->ver <= nv_ver_counter && nv_ver_counter < UINT64_MAX - 100000 + i) \
-__CPROVER_loop_invariant(state->eval_ver == state->ver && nv_ver_counter >= __CPROVER_loop_entry(nv_ver_counter) && nv_ver_counter - __CPROVER_loop_entry(nv_ver_counter) <= (uint64_t)i) \
+__CPROVER_loop_invariant(state->eval_ver == state->ver && nv_ver_counter >= __CPROVER_loop_entry(nv_ver_counter) && nv_ver_counter - __CPROVER_loop_entry(nv_ver_counter) <= (uint64_t)i && state->m_status == __CPROVER_loop_entry(state->m_status)) \
 __CPROVER_loop_invariant(i > 0 ==> (state->origin == state0.ver && state->eval_ver == state->ver && state->ver != state0.ver && !state->valid)) \
 __CPROVER_decreases(max_iterations - i)
 #define NV_LOOP_lsearchk_get_2 \
 __CPROVER_assigns(i, step_size, *state, nv_ver_counter) \
 __CPROVER_loop_invariant(0 <= i && i <= max_iterations && state0.ver <= nv_ver_counter && state->ver <= nv_ver_counter && nv_ver_counter < UINT64_MAX - 50000 + i) \
-__CPROVER_loop_invariant(state->eval_ver == state->ver && nv_ver_counter >= __CPROVER_loop_entry(nv_ver_counter) && nv_ver_counter - __CPROVER_loop_entry(nv_ver_counter) <= (uint64_t)i) \
+__CPROVER_loop_invariant(state->eval_ver == state->ver && nv_ver_counter >= __CPROVER_loop_entry(nv_ver_counter) && nv_ver_counter - __CPROVER_loop_entry(nv_ver_counter) <= (uint64_t)i && state->m_status == __CPROVER_loop_entry(state->m_status)) \
 __CPROVER_loop_invariant(NV_AT(state, &state0, step_size) && state->valid) \
 __CPROVER_decreases(max_iterations - i)
